@@ -1,15 +1,15 @@
 #!/venv/bin/python
 """write /verif/seeded/SWEEP.md (development wave) and HELDOUT.md (held-out wave) from the meta.json files"""
 import json, os, glob
-rows = {'dev': [], 'heldout': [], 'heldout2': [], 'heldout3': [], 'heldout4': [], 'heldout5': [], 'heldout6': [], 'refactor': [], 'refactor2': [], 'refactor3': [], 'refactor4': []}
+rows = {'dev': [], 'heldout': [], 'heldout2': [], 'heldout3': [], 'heldout4': [], 'heldout5': [], 'heldout6': [], 'heldout7': [], 'refactor': [], 'refactor2': [], 'refactor3': [], 'refactor4': []}
 for d in sorted(glob.glob('/verif/seeded/C*')):
     m = json.load(open(d + '/meta.json'))
     wave = m.get('wave', 'dev')
     rows[wave].append((os.path.basename(d), m.get('site', '?'), (m.get('summary', '') or '').replace('\n', ' ')[:150],
                        (m.get('needs_to_manifest', '') or '').replace('\n', ' ')[:120], ', '.join(m.get('caught_by', [])) or '**missed**',
                        m.get('not_caught_reason', ''), ', '.join(m.get('caught_by_initial', []) + ['exit 2: ' + x for x in m.get('caught_by_initial_exit2', [])]) or 'missed'))
-FROZEN = {'heldout': '44b4fcb', 'heldout2': 'a476181', 'heldout3': '158d893', 'heldout4': 'bff74e2', 'heldout5': 'e62add6', 'heldout6': 'b3bf94d'}
-for wave, fn, title in (('dev', 'SWEEP.md', 'Development wave'), ('heldout', 'HELDOUT.md', 'Held-out wave'), ('heldout2', 'HELDOUT2.md', 'Second held-out wave'), ('heldout3', 'HELDOUT3.md', 'Third held-out wave'), ('heldout4', 'HELDOUT4.md', 'Fourth held-out wave'), ('heldout5', 'HELDOUT5.md', 'Fifth held-out wave'), ('heldout6', 'HELDOUT6.md', 'Sixth held-out wave')):
+FROZEN = {'heldout': '44b4fcb', 'heldout2': 'a476181', 'heldout3': '158d893', 'heldout4': 'bff74e2', 'heldout5': 'e62add6', 'heldout6': 'b3bf94d', 'heldout7': 'ed33d28'}
+for wave, fn, title in (('dev', 'SWEEP.md', 'Development wave'), ('heldout', 'HELDOUT.md', 'Held-out wave'), ('heldout2', 'HELDOUT2.md', 'Second held-out wave'), ('heldout3', 'HELDOUT3.md', 'Third held-out wave'), ('heldout4', 'HELDOUT4.md', 'Fourth held-out wave'), ('heldout5', 'HELDOUT5.md', 'Fifth held-out wave'), ('heldout6', 'HELDOUT6.md', 'Sixth held-out wave'), ('heldout7', 'HELDOUT7.md', 'Seventh held-out wave')):
     if not rows[wave]:
         continue
     with open('/verif/seeded/' + fn, 'w') as f:
